@@ -59,6 +59,9 @@ def merged_unknown_family(rng, tier):
 def gen(rng, tier):
     n = 5000 if tier == "thorough" else 450
     cases = merged_unknown_family(rng, tier)
+    for c in G.flag_matrix_worlds():
+        cases.append(dict(c, check=False, show=True))
+        cases.append(dict(c, check=True, show=False))
     for i in range(n):
         clean = rng.chance(2, 3)
         g = G.RichGen(rng.fork("w%d" % i), bad_refs=not clean, nonobject_inputs=not clean, faulty=not clean)
